@@ -20,9 +20,11 @@ type prop struct{ fragx.Engine }
 
 func (p *prop) Rule() string {
 	return "histories of 6-16 writes on a mutex (rows from {0,1,2,3,99,100}) or bool (rows 0,1; row 2 only in Field.Import batches, which must be refused) " +
-		"fragment, half of them through a real Field; columns: 1-3 drawn from {0,1,7,65535,65536,SW-1}; writes: set, clear, import of 1-6 entries " +
+		"fragment owned by the harness hook (3/11), a real Field (2/11), a real Holder with index+field (4/11: Field.SetBit/ClearBit/Import, ClearRow on the fragment the holder opened) " +
+		"or an in-process server (2/11: PQL Set/Clear/ClearRow, API.Import); close+reopen of the owner (fragment, field, holder, server restart) after ~1 write in 4, so that " +
+		"fragments are the ones view.openFragments builds from disk; columns: 1-3 drawn from {0,1,7,65535,65536,SW-1}; writes: set, clear, import of 1-6 entries " +
 		"with repeated and conflicting columns (often the column's current value is among them), clear-import, clearrow, snapshot; after each write " +
-		"mget / rowscol of every column and the storage; a case is non-trivial when it contains an import batch that repeats a column with two different rows"
+		"mget / rowscol of every column and the storage; a case is non-trivial when it contains an import batch that repeats a column with two different rows or a reopen"
 }
 
 var mutexRows = []uint64{0, 1, 2, 3, 99, 100}
@@ -33,7 +35,10 @@ func (p *prop) Gen(r *vh.Rng, tier string, n int) []vh.Case {
 	for k := 0; k < n; k++ {
 		cr := r.Fork()
 		kind := cr.PickS("mutex", "mutex", "bool")
-		field := cr.Bool()
+		// who owns the fragment: the harness (hook), a real Field, a real Holder, an in-process server
+		mode := cr.PickS("frag", "frag", "frag", "field", "field", "holder", "holder", "holder", "holder", "server", "server")
+		field := mode != "frag"
+		owned := mode == "holder" || mode == "server"
 		perm := cr.Perm(len(colPool))
 		var cols []uint64
 		for _, i := range perm[:cr.Range(1, 3)] {
@@ -49,7 +54,11 @@ func (p *prop) Gen(r *vh.Rng, tier string, n int) []vh.Case {
 		row := func() uint64 { return rows[cr.Intn(len(rows))] }
 		col := func() uint64 { return cols[cr.Intn(len(cols))] }
 		var lines []string
-		if field {
+		if mode == "holder" {
+			lines = append(lines, "openholder a "+kind)
+		} else if mode == "server" {
+			lines = append(lines, "openserver a "+kind)
+		} else if field {
 			lines = append(lines, "openfield a "+kind)
 		} else {
 			lines = append(lines, fmt.Sprintf("open a %s %d %s %d %d", kind, cr.Pick(0, 0, 1), cr.PickS("ranked", "lru", "none"), cr.Pick(0, 0, 1, 2, 5), cr.Pick(0, 0, 0, 1)))
@@ -58,6 +67,7 @@ func (p *prop) Gen(r *vh.Rng, tier string, n int) []vh.Case {
 		cur := map[uint64]uint64{}
 		has := map[uint64]bool{}
 		conflict := false
+		reopens := 0
 		batch := func(max int, allowBad bool) string {
 			m := cr.Range(1, max)
 			ss := make([]string, m)
@@ -87,7 +97,7 @@ func (p *prop) Gen(r *vh.Rng, tier string, n int) []vh.Case {
 			switch cr.Intn(10) {
 			case 0, 1:
 				rw, c := row(), col()
-				if field && cr.Bool() {
+				if owned || (field && cr.Bool()) {
 					lines = append(lines, fmt.Sprintf("fset a %d %d", rw, c))
 				} else {
 					lines = append(lines, fmt.Sprintf("setbit a %d %d", rw, c))
@@ -98,7 +108,7 @@ func (p *prop) Gen(r *vh.Rng, tier string, n int) []vh.Case {
 				if has[c] && cr.Bool() {
 					rw = cur[c]
 				}
-				if field && cr.Bool() {
+				if owned || (field && cr.Bool()) {
 					lines = append(lines, fmt.Sprintf("fclear a %d %d", rw, c))
 				} else {
 					lines = append(lines, fmt.Sprintf("clearbit a %d %d", rw, c))
@@ -107,7 +117,7 @@ func (p *prop) Gen(r *vh.Rng, tier string, n int) []vh.Case {
 					has[c] = false
 				}
 			case 3, 4, 5, 6:
-				if field && cr.Chance(2, 3) {
+				if owned || (field && cr.Chance(2, 3)) {
 					lines = append(lines, "fimport a 0 "+batch(6, kind == "bool"))
 				} else {
 					lines = append(lines, "import a 0 "+batch(6, false))
@@ -117,7 +127,7 @@ func (p *prop) Gen(r *vh.Rng, tier string, n int) []vh.Case {
 					delete(has, c)
 				}
 			case 7:
-				if field && cr.Bool() {
+				if owned || (field && cr.Bool()) {
 					lines = append(lines, "fimport a 1 "+batch(4, false))
 				} else {
 					lines = append(lines, "import a 1 "+batch(4, false))
@@ -126,12 +136,26 @@ func (p *prop) Gen(r *vh.Rng, tier string, n int) []vh.Case {
 					delete(has, c)
 				}
 			case 8:
-				lines = append(lines, fmt.Sprintf("clearrow a %d", row()))
+				if owned {
+					lines = append(lines, fmt.Sprintf("fclearrow a %d", row()))
+				} else {
+					lines = append(lines, fmt.Sprintf("clearrow a %d", row()))
+				}
 				for _, c := range cols {
 					delete(has, c)
 				}
 			default:
-				lines = append(lines, "snapshot a")
+				if owned || cr.Bool() {
+					lines = append(lines, "reopen a")
+					reopens++
+				} else {
+					lines = append(lines, "snapshot a")
+				}
+			}
+			// a restart between two writes of the same column is what loses a mutex vector
+			if cr.Chance(1, 6) {
+				lines = append(lines, "reopen a")
+				reopens++
 			}
 			for _, c := range cols {
 				if cr.Bool() {
@@ -148,7 +172,7 @@ func (p *prop) Gen(r *vh.Rng, tier string, n int) []vh.Case {
 			}
 		}
 		lines = append(lines, "bits a", "rows a")
-		cases = append(cases, vh.Case{Lines: lines, Nontrivial: conflict})
+		cases = append(cases, vh.Case{Lines: lines, Nontrivial: conflict || reopens > 0})
 	}
 	return cases
 }
